@@ -1,10 +1,15 @@
 import SmsVerif.Driver.C20
+import SmsVerif.Driver.Layout
 open SmsVerif SmsVerif.Driver
 
 def dispatch (line : String) : String :=
   match words line with
   | "W" :: toks => (handleW toks).getD "bad-op"
   | "R" :: toks => (handleR toks).getD "bad-op"
+  | "enc" :: toks => (handleEnc toks).getD "bad-op"
+  | "dec" :: toks => (handleDec toks).getD "bad-op"
+  | "decalloc" :: toks => (handleDecAlloc toks).getD "bad-op"
+  | ["pdus"] => handlePdus
   | _ => "bad-op"
 
 partial def loop (hin hout : IO.FS.Stream) : IO Unit := do
